@@ -413,6 +413,9 @@ type Lemma struct {
 }
 
 type InvDef struct {
+	Abstract bool
+	Exports  Expr
+	asSpec   *SpecFunc
 	Type string
 	Name string
 	Var  string
@@ -635,7 +638,7 @@ func parseExprList(s string) ([]Expr, error) {
 
 var clauseKeywords = map[string]bool{"requires": true, "ensures": true, "modifies": true, "panics": true, "pure": true,
 	"decreases": true, "hint": true, "loop": true, "at": true, "params": true, "nopanic": true, "maypanic": true, "allocates": true, "ghost": true}
-var itemKeywords = map[string]bool{"const": true, "spec": true, "lemma": true, "inv": true, "ghost": true, "iface": true,
+var itemKeywords = map[string]bool{"const": true, "spec": true, "lemma": true, "inv": true, "invexports": true, "ghost": true, "iface": true,
 	"funcfield": true, "func": true, "viewfunc": true, "trusted": true, "package": true, "opaque": true}
 
 // logicalLines joins continuation lines: a line that does not start with a
@@ -765,6 +768,13 @@ func ParseContractFile(path string, pkgPath string) (*ContractFile, error) {
 			}
 			head := strings.TrimSpace(rest[:k])
 			hf := strings.Fields(head)
+			abstract := false
+			if len(hf) == 3 && hf[2] == "abstract" {
+				// inv Type name(x) abstract: outside its own package the invariant is an uninterpreted predicate over
+				// the memory it reads (clients pass it along, they do not look inside)
+				abstract = true
+				hf = hf[:2]
+			}
 			if len(hf) != 2 {
 				return nil, fail(l, fmt.Errorf("inv head"))
 			}
@@ -773,7 +783,31 @@ func ParseContractFile(path string, pkgPath string) (*ContractFile, error) {
 			if err != nil {
 				return nil, fail(l, err)
 			}
-			cf.Invs = append(cf.Invs, &InvDef{Type: hf[0], Name: hf[1][:i], Var: strings.TrimSuffix(hf[1][i+1:], ")"), Body: b, Pkg: cf.Pkg})
+			cf.Invs = append(cf.Invs, &InvDef{Type: hf[0], Name: hf[1][:i], Var: strings.TrimSuffix(hf[1][i+1:], ")"), Body: b, Pkg: cf.Pkg, Abstract: abstract})
+			cur, curLemma = nil, nil
+			continue
+		case "invexports":
+			// invexports name: expr -- consequences of an abstract invariant that clients outside its package may use
+			// (that the invariant implies them is a separate lemma obligation)
+			k := strings.Index(rest, ":")
+			if k < 0 {
+				return nil, fail(l, fmt.Errorf("invexports needs :"))
+			}
+			b, err := ParseExpr(rest[k+1:])
+			if err != nil {
+				return nil, fail(l, err)
+			}
+			nm := strings.TrimSpace(rest[:k])
+			found := false
+			for _, iv := range cf.Invs {
+				if iv.Name == nm {
+					iv.Exports = b
+					found = true
+				}
+			}
+			if !found {
+				return nil, fail(l, fmt.Errorf("invexports: no invariant %s in this file", nm))
+			}
 			cur, curLemma = nil, nil
 			continue
 		case "viewfunc":
